@@ -32,7 +32,7 @@ def main(argv):
         raise
     except Exception as exc:
         print(f"HARNESS-ERROR {type(exc).__name__}: {exc}")
-        traceback.print_exc()
+        traceback.print_exc(file=sys.stdout)
         return 2
 
 
